@@ -94,6 +94,14 @@ type remStep struct {
 	V2      int    `json:"v2,omitempty"`
 	Answer2 string `json:"answer2,omitempty"`
 	Text2   string `json:"text2,omitempty"`
+	// trees (remCase.Tree): the step reads A = URL 0; Inc 9: A includes B = URL 1 AND C = URL 3 (siblings, read
+	// concurrently); Inc 4: A includes B only, and B's content (number V2+10*Inc2, Inc2 = 6) may include C — a chain
+	// of three; the server behaves as Server2/V2 for B and as Server3/V3 for C, whose prompt is answered Answer3/Text3
+	Inc2    int    `json:"inc2,omitempty"`
+	Server3 string `json:"server3,omitempty"`
+	V3      int    `json:"v3,omitempty"`
+	Answer3 string `json:"answer3,omitempty"`
+	Text3   string `json:"text3,omitempty"`
 }
 
 // the TLS listener logs every failed handshake (URL 2 never shows up there, but a binary that does not trust the
@@ -103,6 +111,7 @@ var remQuietLog = log.New(io.Discard, "", 0)
 type remCase struct {
 	Steps []remStep `json:"steps"`
 	Chain bool      `json:"chain,omitempty"` // model op remote.chain; prompts answered per URL
+	Tree  bool      `json:"tree,omitempty"`  // model op remote.tree: siblings and chains of three; prompts answered per URL
 }
 
 // URL ids (the model's abstract, pairwise distinct cache keys): 0 http /aa/Taskfile.yml, 1 http /bb/Taskfile.yml,
@@ -133,7 +142,7 @@ var remHTTP = []int{0, 1, 3, 4, 5, 6, 7, 8, 9}
 // remIncTable: k = c/10 of a content number → (included URL, absolute reference?)
 var remIncTable = map[int][2]int{1: {0, 0}, 2: {1, 0}, 3: {0, 1}, 4: {1, 1}, 5: {3, 0}, 6: {3, 1}, 7: {8, 0}, 8: {8, 1}}
 
-const remMaxContent = 89
+const remMaxContent = 99
 
 // remIncFor: the k of a content that includes URL `target` (0, 1, 3 or 8) by a relative or an absolute reference
 func remIncFor(target int, abs bool) int {
@@ -188,6 +197,10 @@ func remOwner(r *http.Request, tls bool) (exact, owner, name int) {
 // remIncTable[k] names (1,2,5,7 by a relative reference, 3,4,6,8 by an absolute one — needs the port); k = 7 is `./inc.yml`
 func remContent(u, c, port int) []byte {
 	k := c / 10
+	if k == 9 { // two remote includes (siblings): URL 1 and URL 3
+		return []byte(fmt.Sprintf("version: '3'\nsilent: true\nincludes:\n  b: http://127.0.0.1:%d%s\n  c: http://127.0.0.1:%d%s\ntasks:\n  probe:\n    cmds:\n      - echo u%dv%d >> \"$VERIF_TRACE\"\n      - task: b:probe\n      - task: c:probe\n",
+			port, remPaths[1], port, remPaths[3], u, c))
+	}
 	inc, ok := remIncTable[k]
 	if !ok {
 		return []byte(fmt.Sprintf("version: '3'\nsilent: true\ntasks:\n  probe:\n    cmds:\n      - echo u%dv%d >> \"$VERIF_TRACE\"\n", u, c))
@@ -277,8 +290,40 @@ func (s remStep) norm() remStep {
 	default:
 		s.Answer = "none"
 	}
-	if _, ok := remIncTable[s.Inc]; !ok {
-		s.Inc = 0
+	if s.Server3 != "" { // a tree step: reads A = URL 0
+		s.URL, s.DirName, s.DirHead = 0, 0, ""
+		if s.Inc != 0 && s.Inc != 3 && s.Inc != 4 && s.Inc != 9 {
+			s.Inc = 9
+		}
+		if s.Inc2 != 6 || s.Inc != 4 { // B includes C only in a chain (no diamonds)
+			s.Inc2 = 0
+		}
+		if s.Server2 == "" {
+			s.Server2 = "serve"
+		}
+		if s.V3 < 1 {
+			s.V3 = 1
+		}
+		if s.Server == "refuse" {
+			s.Server3 = "refuse"
+		} else if s.Server3 == "refuse" {
+			s.Server3 = "reset"
+		}
+		switch {
+		case s.Answer != "accept" && s.Answer != "decline":
+			s.Answer3, s.Text3 = "none", ""
+		case s.Answer3 == "accept":
+			if s.Text3 == "" {
+				s.Text3 = "y"
+			}
+		default:
+			s.Answer3 = "decline"
+		}
+	} else {
+		s.Inc2, s.V3, s.Answer3, s.Text3 = 0, 0, "", ""
+		if _, ok := remIncTable[s.Inc]; !ok {
+			s.Inc = 0
+		}
 	}
 	if s.Server2 != "" {
 		if s.V2 < 1 {
@@ -306,7 +351,9 @@ func (s remStep) norm() remStep {
 }
 
 func (s remStep) stalls() bool  { return s.Server == "stall" || s.Server == "stallget" }
-func (s remStep) stalls2() bool { return s.Server2 == "stall" || s.Server2 == "stallget" }
+func (s remStep) stalls2() bool {
+	return s.Server2 == "stall" || s.Server2 == "stallget" || s.Server3 == "stall" || s.Server3 == "stallget"
+}
 
 // c1: the content number the server offers for the step's own URL
 func (s remStep) c1() int { return s.V + 10*s.Inc }
@@ -356,16 +403,21 @@ func remServerTok(u int, kind string, c int, s remStep) string {
 
 func remHTTPS(u int) bool { return u == 2 || u == 6 }
 
-func remCaseLine(d remCase) string {
+// remCaseLine: the line for the model driver; `picks` (trees only) = per step the exit status the binary ended with —
+// when several siblings fail, errgroup reports the one that failed first in real time: the environment's choice
+func remCaseLine(d remCase, picks []int) string {
 	var sb strings.Builder
 	op := "remote.run"
 	if d.Chain {
 		op = "remote.chain"
 	}
+	if d.Tree {
+		op = "remote.tree"
+	}
 	fmt.Fprintf(&sb, "%s %d %d", op, remURLs, len(d.Steps))
 	answers := map[string]int{"accept": 0, "decline": 1, "none": 2}
 	pres := map[string]int{"": 0, "swap": 1, "trunc": 1, "rm": 2, "torn1": 3, "torn2": 4, "torn3": 5}
-	for _, s := range d.Steps {
+	for i, s := range d.Steps {
 		s = s.norm()
 		fmt.Fprintf(&sb, " %d %d %s %s %s %s %s %d %s %s %s %s %d", s.Age, s.URL, b2s(remHTTPS(s.URL)),
 			b2s(s.Yes), b2s(s.Download), b2s(s.Offline), b2s(s.Insecure), s.Expiry, b2s(s.Patient), b2s(s.Clear),
@@ -380,6 +432,14 @@ func remCaseLine(d remCase) string {
 			}
 			// node 2 is one of the plain URLs (0, 1, 3, 8): its token does not depend on which
 			fmt.Fprintf(&sb, " %s %d", remServerTok(0, k2, v2, s), answers[a2])
+		}
+		if d.Tree {
+			pick := 0
+			if i < len(picks) {
+				pick = picks[i]
+			}
+			fmt.Fprintf(&sb, " %s %d %s %d %d", remServerTok(1, s.Server2, s.V2+10*s.Inc2, s), answers[s.Answer2],
+				remServerTok(3, s.Server3, s.V3, s), answers[s.Answer3], pick)
 		}
 		fmt.Fprintf(&sb, " %d %d %d", pres[s.Pre], s.PreURL, s.PreV)
 	}
@@ -459,6 +519,14 @@ func (rs *remServer) handler(overTLS bool) http.HandlerFunc {
 		kind, cn := st.Server, st.c1()
 		if st.Server2 != "" && owner >= 0 && owner != remCu(st.URL) {
 			kind, cn = st.Server2, st.V2
+		}
+		if st.Server3 != "" { // a tree: A = URL 0, B = URL 1, C = URL 3
+			switch owner {
+			case 1:
+				kind, cn = st.Server2, st.V2+10*st.Inc2
+			case 3:
+				kind, cn = st.Server3, st.V3
+			}
 		}
 		if owner == 7 {
 			switch {
@@ -885,6 +953,9 @@ func (rr *remRun) runCLI(s remStep, chain bool) (exit int, out string, err error
 				pr.texts[rr.urls[o]] = s.Text2
 			}
 		}
+		if s.Server3 != "" { // a tree: C's prompt has its own answer
+			pr.texts[rr.urls[3]] = s.Text3
+		}
 		go func() {
 			b := make([]byte, 4096)
 			var ptyOut strings.Builder // what came over the pty alone (stderr goes to a pipe)
@@ -1062,7 +1133,13 @@ func (rr *remRun) cacheView() string {
 	return strings.Join(append(parts, unknown...), " ")
 }
 
-func remEvalOnce(d remCase, work string) (impl string, err error) {
+// remEvalOnce: one sequence on the real binary; picks = the exit status of every step
+func remEvalOnce(d remCase, work string) (impl string, picks []int, err error) {
+	impl, err = remEvalSeq(d, work, &picks)
+	return
+}
+
+func remEvalSeq(d remCase, work string, picks *[]int) (impl string, err error) {
 	if os.Getenv("VERIF_TASK_BIN") == "" {
 		return "", fmt.Errorf("VERIF_TASK_BIN not set")
 	}
@@ -1134,10 +1211,11 @@ func remEvalOnce(d remCase, work string) (impl string, err error) {
 			}
 		}
 		os.Remove(rr.trace)
-		exit, out, e := rr.runCLI(s, d.Chain)
+		exit, out, e := rr.runCLI(s, d.Chain || d.Tree)
 		if e != nil {
 			return "", e
 		}
+		*picks = append(*picks, exit)
 		// a timeout although the server was not stalling: the machine was too slow for --timeout 300ms
 		offered := offers(s.URL, s.Server, s.Patient)
 		if !((s.stalls() || s.stalls2()) && !s.Patient) && (exit == 108 || strings.Contains(out, "deadline exceeded")) {
@@ -1164,11 +1242,27 @@ func remEvalOnce(d remCase, work string) (impl string, err error) {
 				}
 			}
 		}
-		if s.Server2 != "" && offers(0, s.Server2, s.Patient) && (s.Yes || s.Answer2 == "accept") {
+		if !d.Tree && s.Server2 != "" && offers(0, s.Server2, s.Patient) && (s.Yes || s.Answer2 == "accept") {
 			for _, o := range remHTTP { // whichever other URL the step's content includes
 				if o != cu {
 					approved[[2]int{o, s.V2}] = true
 				}
+			}
+		}
+		if d.Tree {
+			spentA := s.stalls() && !s.Patient
+			stallB := (s.Server2 == "stall" || s.Server2 == "stallget") && !s.Patient
+			if !spentA && offers(1, s.Server2, s.Patient) && lost(rr.urls[1]) {
+				return "", errInconclusive{fmt.Sprintf("spurious timeout: step %d node B", i)}
+			}
+			if !spentA && !(s.Inc == 4 && stallB) && offers(3, s.Server3, s.Patient) && lost(rr.urls[3]) {
+				return "", errInconclusive{fmt.Sprintf("spurious timeout: step %d node C", i)}
+			}
+			if offers(1, s.Server2, s.Patient) && (s.Yes || s.Answer2 == "accept") {
+				approved[[2]int{1, s.V2 + 10*s.Inc2}] = true
+			}
+			if offers(3, s.Server3, s.Patient) && (s.Yes || s.Answer3 == "accept") {
+				approved[[2]int{3, s.V3}] = true
 			}
 		}
 		var ran []string
@@ -1184,6 +1278,13 @@ func remEvalOnce(d remCase, work string) (impl string, err error) {
 			n, _ := fmt.Sscanf(m, "u%dv%d", &mu, &mv)
 			toks[j] = "?" + m
 			switch {
+			case d.Tree: // every node of the tree by content number and URL
+				if n == 2 && (j > 0 || mu == 0) {
+					toks[j] = fmt.Sprintf("%du%d", mv, mu)
+				}
+				if n != 2 || !approved[[2]int{mu, mv}] {
+					violation = true
+				}
 			case n == 2 && j == 0 && mu == cu:
 				toks[j], first = fmt.Sprint(mv), mv
 				if !approved[[2]int{s.URL, mv}] {
@@ -1229,7 +1330,7 @@ var remSeq struct {
 }
 
 func evalRemote(d remCase) (string, string) {
-	cl := remCaseLine(d)
+	cl := remCaseLine(d, nil)
 	base := os.Getenv("VERIF_SCRATCH")
 	if base == "" {
 		base = os.TempDir()
@@ -1240,9 +1341,9 @@ func evalRemote(d remCase) (string, string) {
 		remSeq.n++
 		work := filepath.Join(base, "remote", fmt.Sprintf("s%d", remSeq.n))
 		remSeq.Unlock()
-		impl, err := remEvalOnce(d, work)
+		impl, picks, err := remEvalOnce(d, work)
 		if err == nil {
-			return cl, impl
+			return remCaseLine(d, picks), impl
 		}
 		last = err
 		if _, ok := err.(errInconclusive); !ok {
@@ -1476,6 +1577,80 @@ func (c *Ctx) remChainStep(prev *remStep, pty bool, au, bu int, stallBudget *int
 	return s.norm()
 }
 
+// remTreeStep: a step of a tree sequence (A = URL 0, B = URL 1, C = URL 3); shape 9 = A includes B and C, 4 = A includes B,
+// which includes C.  The three servers behave independently (failures are biased towards ONE node, so that most failing
+// loads have one failing node; when several fail the model is told which error the binary reported).
+func (c *Ctx) remTreeStep(prev *remStep, pty bool, shape int, stallBudget *int) remStep {
+	r := c.Rng
+	s := c.remStep(prev, pty)
+	s.URL, s.DirName, s.DirHead, s.Pre, s.PreURL, s.PreV = 0, 0, "", "", 0, 0
+	s.Insecure = r.Intn(100) < 90
+	s.Inc = shape
+	s.Inc2 = 0
+	if shape == 4 && r.Intn(100) < 80 {
+		s.Inc2 = 6
+	}
+	if r.Intn(100) < 6 { // A includes nothing / itself
+		s.Inc = []int{0, 3}[r.Intn(2)]
+	}
+	if prev != nil && r.Intn(100) < 60 {
+		s.V, s.Inc, s.Inc2 = prev.V, prev.Inc, prev.Inc2
+	}
+	if s.Server == "redirect" || s.Server == "redirects" || r.Intn(100) < 55 {
+		s.Server = "serve"
+	}
+	s.Server2, s.Server3 = "serve", "serve"
+	switch x := r.Intn(100); {
+	case x < 30:
+		s.Server2 = remServerKind(r.Intn(100))
+	case x < 60:
+		s.Server3 = remServerKind(r.Intn(100))
+	case x < 70:
+		s.Server2, s.Server3 = remServerKind(r.Intn(100)), remServerKind(r.Intn(100))
+	}
+	s.V2, s.V3 = 1+r.Intn(3), 1+r.Intn(3)
+	if prev != nil && r.Intn(100) < 65 {
+		s.V2, s.V3 = prev.V2, prev.V3
+	}
+	if r.Intn(100) < 10 { // damage to one of the three entries
+		s.Pre = []string{"swap", "trunc", "rm", "torn1"}[r.Intn(4)]
+		s.PreURL = []int{0, 1, 3}[r.Intn(3)]
+		s.PreV = 1 + r.Intn(3)
+		if s.PreURL == 0 {
+			s.PreV += 10 * shape
+		}
+	}
+	if s.stalls() || s.stalls2() {
+		s.Patient = r.Intn(100) < 20
+		if !s.Patient && !s.NoExp {
+			if *stallBudget <= 0 {
+				if s.stalls() {
+					s.Server = "serve"
+				}
+				if s.Server2 == "stall" || s.Server2 == "stallget" {
+					s.Server2 = "serve"
+				}
+				if s.Server3 == "stall" || s.Server3 == "stallget" {
+					s.Server3 = "serve"
+				}
+			} else {
+				*stallBudget--
+			}
+		}
+	}
+	if s.Answer != "none" {
+		pick := func() (string, string) {
+			if r.Intn(100) < 60 {
+				return "accept", []string{"y", "yes", "Y", "YES", " y "}[r.Intn(5)]
+			}
+			return "decline", []string{"n", "", "no", "x", "yes please", "N"}[r.Intn(6)]
+		}
+		s.Answer2, s.Text2 = pick()
+		s.Answer3, s.Text3 = pick()
+	}
+	return s.norm()
+}
+
 func runRemote(c *Ctx) {
 	if c.Replay(func(raw []byte) (string, string) {
 		var d remCase
@@ -1546,6 +1721,36 @@ func runRemote(c *Ctx) {
 		}
 		cases = append(cases, d)
 	}
+	// trees: A = URL 0 includes B = URL 1 and C = URL 3 (siblings: two goroutines of one errgroup, prompts serialised by
+	// promptMutex), or A includes B and B includes C (a chain of three under the one deadline)
+	nTree := c.Pick(120, 1500)
+	for i := 0; i < nTree; i++ {
+		k := 2 + c.Rng.Intn(3)
+		d := remCase{Tree: true}
+		shape := 9 // siblings
+		if c.Rng.Intn(100) < 45 {
+			shape = 4 // chain of three
+		}
+		var prev *remStep
+		for j := 0; j < k; j++ {
+			s := c.remTreeStep(prev, pty, shape, &stallBudget)
+			if j == 0 && c.Rng.Intn(100) < 70 { // most histories start by getting approved copies of all three
+				wasStall := (s.stalls() || s.stalls2()) && !s.Patient && !s.NoExp
+				s.Server, s.Server2, s.Server3, s.Yes, s.Insecure, s.NoExp, s.Offline, s.Clear, s.Patient = "serve", "serve", "serve", true, true, false, false, false, false
+				if wasStall {
+					stallBudget++
+				}
+				s.Inc = shape
+				if shape == 4 {
+					s.Inc2 = 6
+				}
+				s = s.norm()
+			}
+			d.Steps = append(d.Steps, s)
+			prev = &d.Steps[len(d.Steps)-1]
+		}
+		cases = append(cases, d)
+	}
 	// git nodes: the harness has no git server; what can be exercised offline is a server that accepts the connection
 	// and never answers — under --timeout 300ms that is 108 (no cache), and nothing else: the binary must come back
 	nGit := c.Pick(10, 60)
@@ -1602,6 +1807,23 @@ func runRemote(c *Ctx) {
 			}
 			if s.URL == 6 && strings.HasPrefix(s.Server, "redirect") {
 				c.Hit("tls:" + s.Server + map[bool]string{true: "-insecure", false: "-secure"}[s.Insecure])
+			}
+			if d.Tree {
+				c.Hit("tree:step")
+				c.Hit(fmt.Sprintf("tree:shape-%d-%d", s.Inc, s.Inc2))
+				c.Hit("tree:serverB:" + s.Server2)
+				c.Hit("tree:serverC:" + s.Server3)
+				if j < len(steps) {
+					r := strings.SplitN(steps[j], " ", 2)[0]
+					switch n := strings.Count(r, "+"); {
+					case strings.HasPrefix(r, "run:") && n == 2 && s.Inc == 9:
+						c.Hit("tree:siblings-ran")
+					case strings.HasPrefix(r, "run:") && n == 2:
+						c.Hit("tree:chain-of-three-ran")
+					case strings.HasPrefix(r, "err:"):
+						c.Hit("tree:" + r)
+					}
+				}
 			}
 			if d.Chain {
 				c.Hit("chain:step")
